@@ -10,9 +10,9 @@ broadcast use {ax::axiom_string_eq_spec, ax::axiom_string_obeys_eq, ax::axiom_st
 pub type VersionId = Uuid;
 //@include regions/storage_trait.rs
 //@include regions/apply_operations.rs
+//@include regions/taskdb_types.rs
+//@include vocab/taskdbmodel.rs
 //@include regions/taskdb_impl.rs
 // ---- functions these properties depend on that are NOT verified (outside the verifier's reach): hashed; a change -> UNDECIDED
-//@watch C05 C15 :: src/replica.rs :: impl<S: Storage> Replica<S> :: fn commit_operations
-//@watch C15 :: src/replica.rs :: impl<S: Storage> Replica<S> :: fn rebuild_working_set
 //@watch C15 :: src/taskdb/mod.rs :: impl<S: Storage> TaskDb<S> :: fn rebuild_working_set
 //@include prelude/tail.rs
